@@ -37,14 +37,17 @@ inductive RE where
 abbrev Caps := List (Str × Str)           -- newest first; lookup takes the first binding
 abbrev Res := List (Str × Caps)
 
-/-- `\w`: exact on ASCII; beyond ASCII the model knows the Latin-1/Latin Extended letters and the
+/-- `\w`: exact on ASCII; beyond ASCII the model knows the Latin-1/Latin Extended letters, Cyrillic, kana,
+    CJK unified ideographs, Hangul syllables (whole blocks that CPython's `\w` accepts — checked against `re`) and the
     BMP decimal digits (documented limit, DESIGN §3.3) -/
 def isWordU (c : Char) : Bool :=
   isAsciiWord c || isDigitU c ||
   (let n := c.toNat
    n == 0xAA || n == 0xB5 || n == 0xBA || n == 0xB2 || n == 0xB3 || n == 0xB9 ||
    (0xBC ≤ n && n ≤ 0xBE) ||
-   (0xC0 ≤ n && n ≤ 0x24F && n != 0xD7 && n != 0xF7))
+   (0xC0 ≤ n && n ≤ 0x24F && n != 0xD7 && n != 0xF7) ||
+   (0x400 ≤ n && n ≤ 0x481) || (0x48A ≤ n && n ≤ 0x52F) || (0x3041 ≤ n && n ≤ 0x3096) || (0x30A1 ≤ n && n ≤ 0x30FA) ||
+   (0x4E00 ≤ n && n ≤ 0x9FFF) || (0xAC00 ≤ n && n ≤ 0xD7A3))
 
 def isSpaceU (c : Char) : Bool :=
   isAsciiSpace c ||
